@@ -106,6 +106,8 @@ structure Resp where
   tag : Nat := 0                 -- which exchange produced `http`: 2*attempt (+1 for a digest resend)
   err : Option Err := none       -- Err
   bodyCached : Bool := false     -- body != nil
+  bodyOf : Nat := 0              -- the exchange (tag) whose body `body` holds; meaningful when bodyCached
+  savedOf : Option Nat := none   -- SetOutput / SetOutputFile: the exchange whose body was last copied to the output
   slots : Slots := {}            -- result / error
   deriving DecidableEq, Repr, Inhabited
 
@@ -133,9 +135,18 @@ structure Stack where
   errorTarget : Bool := false
   commonErr : Bool := false
   autoRead : Bool := true
-  maxRetries : Nat := 0               -- SetRetryCount (unbounded retry, < 0, is not modelled)
+  maxRetries : Nat := 0               -- SetRetryCount(n), n ≥ 0
   conds : Option (List Bool) := none  -- custom retry conditions: their joint verdict per attempt
   hook : Bool := false                -- Client.OnError installed
+  save : Bool := false                -- Request.SetOutput / SetOutputFile (`isSaveResponse`)
+  outFails : List Bool := []          -- per attempt: creating / writing the output fails
+  unbounded : Bool := false           -- SetRetryCount(n) with n < 0: `MaxRetries >= 0` never holds
+  fuel : Nat := 0                     -- unbounded only: how many attempts the script describes (model artefact)
+  ctxDone : List Bool := []           -- per attempt: the request's context is done when the wait before the NEXT attempt begins
+  /-- code variant, kept here so that `clientRoundTrip` needs no further parameter: `true` = the
+  code with fixes/C18-3-digest-download.patch (the model follows it), `false` = the code as found
+  (the 401 challenge is what `SetOutput` saves, the answer to the authorized request never is) -/
+  fixDigestSave : Bool := true
   deriving Repr, Inhabited
 
 def Stack.udAt (s : Stack) (a : Nat) : List ReqAct := s.udReq.map (·.getD a .ok)
@@ -145,16 +156,21 @@ def Stack.getBodyAt (s : Stack) (a : Nat) : Bool := s.getBodyFails.getD a false
 def Stack.transportAt (s : Stack) (a : Nat) : TOut := s.transport.getD a (.fail (.stage 0))
 def Stack.clientAt (s : Stack) (a : Nat) : List RespAct := s.clientResp.map (·.getD a .nop)
 def Stack.reqRespAt (s : Stack) (a : Nat) : List RAct := s.reqResp.map (·.getD a (.mw .nop))
+def Stack.outFailAt (s : Stack) (a : Nat) : Bool := s.outFails.getD a false
+def Stack.ctxDoneAt (s : Stack) (a : Nat) : Bool := s.ctxDone.getD a false
 
 /-! ### Client.roundTrip -/
 
-/-- The auto-read block: `resp.Err == nil && <auto-read enabled> && resp.StatusCode > 199`. -/
+/-- The auto-read block: `resp.Err == nil && <auto-read enabled> && !r.isSaveResponse &&
+resp.StatusCode > 199`. -/
 def autoRead (s : Stack) (r : Resp) : Resp × List Ev :=
   match r.http with
   | some h =>
-    if r.err = none ∧ s.autoRead = true ∧ autoReadStatus h.status = true then
-      if h.readOK then ({ r with bodyCached := true }, [])
-      else ({ r with bodyCached := true, err := some .read }, [.raised .read])
+    if r.err = none ∧ (s.autoRead = true ∧ s.save = false) ∧ autoReadStatus h.status = true then
+      -- `resp.ToBytes()`: the return value is ignored; a failure is in `resp.Err` because ToBytes records it
+      match h.acqErr with
+      | none => ({ r with bodyCached := true, bodyOf := r.tag }, [])
+      | some e => ({ r with bodyCached := h.acqBody, bodyOf := r.tag, err := some e }, [.raised e])
     else (r, [])
   | none => (r, [])
 
@@ -180,9 +196,50 @@ def bindIn (s : Stack) (r : Resp) : BindIn :=
 
 def parseResp (s : Stack) (r : Resp) : Parsed :=
   let o := parseBody (bindIn s r)
-  { resp := { r with slots := o.slots, err := o.respErr, bodyCached := o.bodyCached },
+  { resp := { r with slots := o.slots, err := o.respErr, bodyCached := o.bodyCached,
+                     bodyOf := if r.bodyCached then r.bodyOf else r.tag },
     ret := o.err,
     evs := unmEv o.codec ++ newErrEv o.err r.err }
+
+/-- The error `saveResponse` (the working part of `handleDownload`) returns: nothing without
+an http response or when the response is not to be saved; otherwise the body — the cached one,
+else `r.Body` read directly, WITHOUT the body transformer and without caching — is copied to the
+output, and a failure to create / write the output or to read the body is returned. `resp.Err`
+is not consulted. (Both failing at once: the model answers `output`; which one `io.Copy` meets
+first depends on the body length, the lanes do not combine them.) -/
+def saveErr (s : Stack) (a : Nat) (r : Resp) : Option Err :=
+  match r.http with
+  | none => none
+  | some h =>
+    if s.save = false then none
+    else if s.outFailAt a then some .output
+    else if r.bodyCached = false ∧ h.readOK = false then some .read
+    else none
+
+/-- The body of this response went to the output. -/
+def saved (s : Stack) (a : Nat) (r : Resp) : Bool :=
+  s.save && r.http.isSome && (saveErr s a r).isNone
+
+/-- A 401 that carries a Digest challenge, in an attempt whose request has the digest
+middleware installed: the response that middleware is going to replace by the answer to the
+authorized request (`isDigestChallenge` + `Request.digestAuth` of fixes/C18-3). -/
+def digestChallenged (s : Stack) (a : Nat) (h : Http) : Bool :=
+  h.status == 401 && (s.reqRespAt a).any fun
+    | .digest true _ => true
+    | _ => false
+
+/-- `handleDownload`, the second built-in element of the client loop (`SetOutput` /
+`SetOutputFile`): `saveResponse`, whose error the loop records in `resp.Err` (replacing what was
+there) — except, in the repaired code, for a digest challenge that is going to be answered: that
+body is not what the caller asked to save. -/
+def download (s : Stack) (a : Nat) (r : Resp) : Resp × List Ev :=
+  match r.http with
+  | none => (r, [])
+  | some h =>
+    if s.fixDigestSave = true ∧ digestChallenged s a h = true then (r, [])
+    else match saveErr s a r with
+      | some e => ({ r with err := some e }, [.raised e])
+      | none => ({ r with savedOf := if saved s a r then some r.tag else r.savedOf }, [])
 
 /-- One user response middleware in the CLIENT loop: `if e := f(c, resp); e != nil { resp.Err = e }`. -/
 def clientAct (r : Resp) : RespAct → Resp × List Ev
@@ -221,8 +278,10 @@ def clientRoundTrip (s : Stack) (a : Nat) : RT :=
     let p := parseResp s r2
     -- client loop, first (built-in) element: `if e := parseResponseBody(c, resp); e != nil { resp.Err = e }`
     let r3 : Resp := match p.ret with | some e => { p.resp with err := some e } | none => p.resp
-    let (r4, e3) := clientLoop 0 (s.clientAt a) r3
-    { resp := some r4, err := r4.err, evs := .send :: e0 ++ e1 ++ p.evs ++ e3 }
+    -- second (built-in) element: `if e := handleDownload(c, resp); e != nil { resp.Err = e }`
+    let (r3d, e2) := download s a r3
+    let (r4, e3) := clientLoop 0 (s.clientAt a) r3d
+    { resp := some r4, err := r4.err, evs := .send :: e0 ++ e1 ++ p.evs ++ e2 ++ e3 }
 
 /-! ### wrapping round-trippers -/
 
@@ -279,13 +338,20 @@ inductive StepOut
   deriving Repr
 
 /-- Repaired digest middleware: auto-read and bind the final response like `Client.roundTrip`
-does, returning what `parseResponseBody` returns. -/
-def rebind (s : Stack) (r1 : Resp) : StepOut :=
+does, returning what `parseResponseBody` returns; then (fixes/C18-3) save it like
+`handleDownload` would, returning what `saveResponse` returns. -/
+def rebind (s : Stack) (a : Nat) (r1 : Resp) : StepOut :=
   let (r2, e1) := autoRead s r1
   let p := parseResp s r2
   match p.ret with
   | some e => .stop (some p.resp) e (.resend :: e1 ++ p.evs)
-  | none => .cont (some p.resp) (.resend :: e1 ++ p.evs)
+  | none =>
+    if s.fixDigestSave then
+      match saveErr s a p.resp with
+      | some e => .stop (some p.resp) e (.resend :: e1 ++ p.evs ++ [.raised e])
+      | none => .cont (some { p.resp with savedOf := if saved s a p.resp then some p.resp.tag else p.resp.savedOf })
+                  (.resend :: e1 ++ p.evs)
+    else .cont (some p.resp) (.resend :: e1 ++ p.evs)
 
 /-- Repaired digest middleware: what was read and bound from the 401 is forgotten before the
 second exchange. -/
@@ -297,7 +363,7 @@ def digestResend (fx : Fixes) (s : Stack) (a : Nat) (r0 : Resp) : TOut → StepO
   | .fail e => .stop (some { r0 with http := none }) e [.resend, .raised e]
   | .resp h2 =>
     let r1 : Resp := { r0 with http := some h2, tag := 2 * a + 1 }
-    if fx.digestRebind then rebind s r1 else .cont (some r1) [.resend]
+    if fx.digestRebind then rebind s a r1 else .cont (some r1) [.resend]
 
 /-- `handleDigestAuthFunc` on a non-nil response. -/
 def digestStep (fx : Fixes) (s : Stack) (a : Nat) (chalOK : Bool) (re : TOut) (r : Resp) : StepOut :=
@@ -370,6 +436,8 @@ structure DoOut where
   resp : Option Resp
   err : Option Err
   crash : Bool
+  /-- model artefact: an unbounded retry loop went on beyond the attempts the script describes -/
+  exhausted : Bool := false
   deriving Repr
 
 def needRetry (s : Stack) (a : Nat) (err : Option Err) : Bool :=
@@ -386,24 +454,44 @@ def crashOut (t : Att) : DoOut :=
 /-- The retry clean-up `resp.body = nil; resp.result = nil; resp.error = nil`. -/
 def cleanup (r : Resp) : Resp := { r with bodyCached := false, slots := {} }
 
-/-- The `for { … }` of `do`; the first argument is the number of retries still allowed
-(`MaxRetries - RetryAttempt`), `a` the attempt index, `prev` the value of the named result
-`resp` on entry to the iteration. -/
+/-- "absolutely cannot retry": `contextCanceled || r.retryOption == nil ||
+(r.RetryAttempt >= MaxRetries && MaxRetries >= 0)`. `contextCanceled` is computed from the round
+trip's `err` before the request-level loop; when that loop does not `return`, the repaired code
+(`keepErr`) leaves `err` as it was, so the attempt's final `err` is used. -/
+def cannotRetry (s : Stack) (a : Nat) (err : Option Err) : Bool :=
+  err == some .ctxCanceled || (!s.unbounded && decide (s.maxRetries ≤ a))
+
+/-- The wait before a retry met a context that is done:
+`err = r.Context().Err(); resp.Err = err; return` (what was read and bound stays). -/
+def waitOut (t : Att) (r : Resp) : DoOut :=
+  { atts := [t], resp := some { r with err := some .ctxDone }, err := some .ctxDone, crash := false }
+
+/-- The script ran out (unbounded retry only). -/
+def exhaustedOut : DoOut := { atts := [], resp := none, err := none, crash := false, exhausted := true }
+
+/-- The `for { … }` of `do`. The first argument is fuel (the loop itself is bounded by
+`MaxRetries` when that is ≥ 0 and by nothing when it is negative: `callDo` supplies
+`MaxRetries + 1`, resp. the number of attempts the script describes), `a` the attempt index
+(`RetryAttempt`), `prev` the value of the named result `resp` on entry to the iteration. -/
 def doLoop (fx : Fixes) (s : Stack) : Nat → Nat → Option Resp → DoOut
-  | 0, a, prev =>
-    let t := attempt fx s a prev
-    if t.crash then crashOut t else stopOut t
-  | rem + 1, a, prev =>
+  | 0, _, _ => exhaustedOut
+  | fuel + 1, a, prev =>
     let t := attempt fx s a prev
     if t.crash then crashOut t
     else if t.returned then stopOut t
+    else if cannotRetry s a t.err then stopOut t
     else if needRetry s a t.err then
       match t.resp with
       | none => crashOut t                                    -- `resp.body = nil` on a nil resp
       | some r =>
-        let o := doLoop fx s rem (a + 1) (some (cleanup r))
-        { o with atts := t :: o.atts }
+        if s.ctxDoneAt a then waitOut t r
+        else
+          let o := doLoop fx s fuel (a + 1) (some (cleanup r))
+          { o with atts := t :: o.atts }
     else stopOut t
+
+/-- Fuel that lets the loop run to its end: `MaxRetries + 1` attempts at most when bounded. -/
+def Stack.fuelFor (s : Stack) : Nat := if s.unbounded then s.fuel else s.maxRetries + 1
 
 /-- What the caller observes. -/
 inductive Out
@@ -411,19 +499,21 @@ inductive Out
   | ret (resp : Option Resp) (err : Option Err) (hooks : Nat) (atts : List Att)
                                                               -- normal return (`err` = resp.Err for `Do`)
   | mustPanic (e : Err) (hooks : Nat) (atts : List Att)       -- Must* panicking with the call's error
+  | exhausted (atts : List Att)                               -- unbounded retry: still looping where the script ends
   deriving Repr
 
 /-- `Request.Do`. -/
 def callDo (fx : Fixes) (s : Stack) : DoOut :=
   if s.builderErr then
     { atts := [], resp := some { origin := .synth, err := some .builder }, err := some .builder, crash := false }
-  else if s.maxRetries ≠ 0 ∧ s.unreplayable then
+  else if (s.maxRetries ≠ 0 ∨ s.unbounded = true) ∧ s.unreplayable then
     { atts := [], resp := some { origin := .synth, err := some .unreplayable }, err := some .unreplayable, crash := false }
-  else doLoop fx s s.maxRetries 0 none
+  else doLoop fx s s.fuelFor 0 none
 
 def run (fx : Fixes) (s : Stack) : Out :=
   let d := callDo fx s
   if d.crash then .crash d.atts
+  else if d.exhausted then .exhausted d.atts
   else match d.resp with
     | none => .crash d.atts                     -- `resp.Err` in Send / the caller's first use in Do
     | some r =>
